@@ -98,6 +98,16 @@ class FakeDatagramTransport(asyncio.DatagramTransport):
         self.log.append({"ev": "icmp", "transport": self.index, "t": self.loop.time()})
         self.protocol.error_received(exc)
 
+    def closed_externally(self):
+        """The transport goes away WITHOUT an error while a reply is awaited (the loop is
+        shutting the socket down, a wrapper closed it): connection_lost(None)."""
+        if self.closing:
+            return
+        self.log.append({"ev": "closed-externally", "transport": self.index, "t": self.loop.time()})
+        self.closing = True
+        self.closed_how = "external"
+        self.loop.call_soon(self._call_connection_lost, None)
+
     def fatal(self, exc):
         """The kernel reports a fatal error on the socket: asyncio force-closes."""
         if self.closing:
